@@ -455,6 +455,7 @@ def lazy_instance_stores():
 
 # ---- (c3) consumers of the shared class-level tables: a value obtained from a table getter (get_xsd_attributes and friends) must only be READ
 TABLE_GETTERS = ('get_xsd_attributes', 'get_xsd_indicator', 'get_xsd_tree', 'get_children_container')
+SCHEMA_GETTERS = ('get_attributes',)
 MUTATORS = ('sort', 'reverse', 'append', 'extend', 'insert', 'remove', 'pop', 'clear', 'update', 'setdefault', 'popitem', '__setitem__', '__delitem__', 'add', 'discard')
 
 
@@ -469,14 +470,29 @@ def shared_table_mutations():
             if fn.name in TABLE_GETTERS:
                 continue                      # the getter fills its own table: class_level_stores() judges that
             bound = set()
+            # the attribute dictionary of a schema node (XSDTree.get_attributes() hands out the live ElementTree dict) is shared by every element of
+            # the type - unless the node is a copy made in this very function
+            fresh = set()
             for n in ast.walk(fn):
-                if isinstance(n, ast.Assign) and isinstance(n.value, ast.Call) and isinstance(n.value.func, ast.Attribute) and n.value.func.attr in TABLE_GETTERS:
+                if isinstance(n, ast.Assign) and isinstance(n.value, ast.Call):
+                    f0 = n.value.func
+                    if (isinstance(f0, ast.Attribute) and f0.attr in ('__deepcopy__', '__copy__', 'deepcopy', 'copy')) or (isinstance(f0, ast.Name) and f0.id in ('deepcopy', 'copy')):
+                        for tg in n.targets:
+                            if isinstance(tg, ast.Name):
+                                fresh.add(tg.id)
+
+            def schema_dict(x):
+                return isinstance(x, ast.Call) and isinstance(x.func, ast.Attribute) and x.func.attr in SCHEMA_GETTERS and \
+                    not (isinstance(x.func.value, ast.Name) and x.func.value.id in fresh)
+            for n in ast.walk(fn):
+                if isinstance(n, ast.Assign) and isinstance(n.value, ast.Call) and isinstance(n.value.func, ast.Attribute) and \
+                        (n.value.func.attr in TABLE_GETTERS or schema_dict(n.value)):
                     for tg in n.targets:
                         if isinstance(tg, ast.Name):
                             bound.add(tg.id)
 
             def is_table(x):
-                return (isinstance(x, ast.Name) and x.id in bound) or (isinstance(x, ast.Call) and isinstance(x.func, ast.Attribute) and x.func.attr in TABLE_GETTERS)
+                return (isinstance(x, ast.Name) and x.id in bound) or (isinstance(x, ast.Call) and isinstance(x.func, ast.Attribute) and x.func.attr in TABLE_GETTERS) or schema_dict(x)
             for n in ast.walk(fn):
                 what = None
                 if isinstance(n, ast.Call) and isinstance(n.func, ast.Attribute) and n.func.attr in MUTATORS and is_table(n.func.value):
